@@ -29,13 +29,12 @@ CFG = ["tls"]
 def C12_1(ctx, facts):
     f = facts.unit(facts.method("client::conn::transport::TlsTransport", "Service", "call"), expand=True)
     ctx.touched(f)
-    sw, reg = arms(f, "InnerBraid")
-    if set(reg) != {"Plain", "Tls"}:
-        return ctx.undecided("TlsTransport::call|arms", "match on the transport braid not recognised: %s" % sorted(reg))
-    tls_calls = [c for c in f.calls() if c.bb in reg["Tls"] and norm(c.decl or c.name).endswith("Service::call") and "TlsTransportWrapper" in (c.t.get("argtys") or [""])[0]]
-    plain_in_tls = [c for c in f.calls() if c.bb in reg["Tls"] and norm(c.decl or c.name).endswith("Transport::connect")]
-    ctx.floor("TlsTransport::call|tls-connect", len(tls_calls), 1, "TLS connect in the Tls arm")
-    ctx.floor("TlsTransport::call|plain-connect-in-tls-arm", len(plain_in_tls), 1, "plain connect in the Tls arm")
+    # the two ways out: the TLS wrapper's call, or a bare transport's connect - wherever they sit (in the arms of the match on
+    # the braid, or in a shared tail after it); which one a TLS-configured transport reaches is decided by the table below
+    tls_calls = [c for c in f.calls() if norm(c.decl or c.name).endswith("Service::call") and "TlsTransportWrapper" in (c.t.get("argtys") or [""])[0]]
+    plain_in_tls = [c for c in f.calls() if norm(c.decl or c.name).endswith("Transport::connect")]
+    ctx.floor("TlsTransport::call|tls-connect", len(tls_calls), 1, "TLS connect")
+    ctx.floor("TlsTransport::call|plain-connect-in-tls-arm", len(plain_in_tls), 1, "plain connects")
 
     # transport selection as a decision table: with a TLS configuration (braid = Tls), which connect is reached for which
     # URI scheme?  Evaluated abstractly on the expanded unit (scheme_str() is the scenario input; string comparisons with
@@ -56,7 +55,7 @@ def C12_1(ctx, facts):
     rows = 0
     for scheme in ("https", "wss", "http", "ws", "ftp", None):
         sv = ("variant", "None", ()) if scheme is None else ("variant", "Some", ((0, ("const", '"%s"' % scheme)),))
-        oracles = [(r"Uri::scheme_str$", lambda site, vals, sv=sv: sv), STR_EQ]
+        oracles = [(r"Uri::scheme_str$", lambda site, vals, sv=sv: sv), STR_EQ, VALUE_EQ]
         try:
             outs = AbsPaths(f, oracles=oracles).outcomes(state={1: self_val}, observe_blocks=tlsb | plainb)
         except AbsPaths.Undecided as e:
